@@ -311,7 +311,8 @@ def run_score(spec, acc, Q):
                 tail = rng.choice([0, 0.25, 1, 5])
                 score.finish(tail)     # outside routines: absolute time
                 lst = score.list
-                exp = sorted(entries + [(float(tail), 10**6)],
+                # the closing marker is placed tailtime after the latest entry
+                exp = sorted(entries + [(max(times + [0.0]) + tail, 10**6)],
                              key=lambda e: (e[0], e[1]))
                 got = [(b[0], -1 if b[1][0] == '/g_new' else
                         10**6 if b[1][0] == '/c_set' else b[1][1])
